@@ -163,9 +163,13 @@ fn c09_scenario(rep: &Reporter, sc: &Scenario, tier: Tier, stats: &C09Stats, sam
             rep.report(format!("bestmove_count_after_interruption:{:?}:{}", cause, out.n_best), case(json!({"count": out.n_best})));
         } else {
             let want = expected_best(count);
-            // a quit may become visible one poll later than intended (see engine_driver): accept both
-            let want_alt = if cause == Cause::Quit { expected_best(count + 1) } else { want.clone() };
-            if out.best != want && out.best != want_alt {
+            // Engine::accept(Quit) sends and then joins, so the gate is opened by a helper a moment
+            // after the send (engine_driver). On a loaded machine the quit may therefore become
+            // visible some polls after the intended one — but never after the last poll the thread
+            // executed: accept every answer that is right for SOME poll in that range.
+            let last = n2 + out.obs.counters.polls.max(k) - 1;
+            let ok = if cause == Cause::Quit { (count..=last).any(|c| out.best == expected_best(c)) } else { out.best == want };
+            if !ok {
                 rep.report(format!("bestmove_not_from_last_completed_iteration:{:?}", cause), case(json!({"expected": want, "actual": out.best})));
             }
         }
